@@ -186,6 +186,20 @@ func (c10) Run(ts *tape.Set, tier Tier) *Result {
 			}
 			res.probe("seekable-source-after-header")
 		}
+		// the standard library's in-memory readers: they carry optional
+		// interfaces (Len, Seek, WriteTo, ReadAt) a builder may take short cuts
+		// through; the logical input is the same bytes
+		if !record("source=bytes.Reader", spec.Width, func(ls *ipld.LinkSystem) (ipld.Link, uint64, error) {
+			return builder.BuildUnixFSFile(bytes.NewReader(content), spec.Chunker, ls)
+		}) {
+			return res
+		}
+		if !record("source=bytes.Buffer", spec.Width, func(ls *ipld.LinkSystem) (ipld.Link, uint64, error) {
+			return builder.BuildUnixFSFile(bytes.NewBuffer(append([]byte(nil), content...)), spec.Chunker, ls)
+		}) {
+			return res
+		}
+		res.probe("stdlib-reader-sources")
 		// a second random schedule and a repeat of the whole-read build
 		record("source=random#2", spec.Width, func(ls *ipld.LinkSystem) (ipld.Link, uint64, error) {
 			return builder.BuildUnixFSFile(source.New(content, source.Random, seed^0xfeed), spec.Chunker, ls)
@@ -650,6 +664,49 @@ func c10Recursive(ts *tape.Set, tier Tier, res *Result) *Result {
 				return res
 			}
 		}
+	}
+	// a regular file whose stat size is 0 although it delivers bytes (procfs,
+	// sysfs, some FUSE and network file systems): the logical input is what
+	// reading it yields, so importing it and importing an ordinary copy of
+	// those bytes must give the same link. (Skipped where no such file exists.)
+	for _, pf := range []string{"/proc/sys/kernel/ostype", "/proc/sys/kernel/osrelease", "/proc/version"} {
+		fi, err := os.Stat(pf)
+		if err != nil || !fi.Mode().IsRegular() || fi.Size() != 0 {
+			continue
+		}
+		data, err := os.ReadFile(pf)
+		if err != nil || len(data) == 0 {
+			continue
+		}
+		cp := filepath.Join(dir, "copy-of-proc-file")
+		if os.WriteFile(cp, data, 0o644) != nil {
+			continue
+		}
+		one := func(path string) buildResult {
+			var br buildResult
+			w := world.New(store.New(), false)
+			panicked, site, pmsg := guard(func() {
+				l, sz, err := builder.BuildUnixFSRecursive(path, &w.LS)
+				br.err, br.size = err, sz
+				if l != nil {
+					br.link = l.String()
+				}
+			})
+			res.Execs++
+			if panicked {
+				br.err = fmt.Errorf("panic@%s: %s", site, pmsg)
+			}
+			return br
+		}
+		viaProc, viaCopy := one(pf), one(cp)
+		_ = os.Remove(cp)
+		res.probe("file-whose-stat-size-is-zero")
+		sc.Builds = append(sc.Builds, "import of "+pf, "import of a copy of its bytes")
+		if viaCopy.err == nil && (viaProc.err != nil || viaProc.link != viaCopy.link || viaProc.size != viaCopy.size) {
+			res.Violation = &Violation{Class: "c10/link-differs/recursive-stat-size", Msg: fmt.Sprintf("importing %s (a regular file of %d bytes whose stat size is 0) returned (%s, %d, %v); importing an ordinary file with the same bytes returns (%s, %d)", pf, len(data), viaProc.link, viaProc.size, viaProc.err, viaCopy.link, viaCopy.size)}
+			return res
+		}
+		break
 	}
 	res.NonTrivial = len(files) >= 2
 	res.Sig = fnvMix(0, 77, uint64(len(files)), tape.HashString(first.link))
